@@ -14,12 +14,17 @@ def load(
     **kwargs,
 ):
     """Exposed as fickling.load()"""
-    pickled_data = Pickled.load(file)
+    # Read the first pickle off the caller's stream once (the stream is left right
+    # after it), then analyse a re-parse of exactly the immutable bytes that will be
+    # unpickled: a stream that returns different bytes when a region is read twice
+    # cannot make the analysed opcodes differ from the executed ones.
+    data = Pickled.load(file).dumps()
+    pickled_data = Pickled.load(data)
     result = check_safety(pickled=pickled_data, json_output_path=json_output_path)
     if result.severity <= max_acceptable_severity:
         # We don't do pickle.load(file) because it could allow for a race
         # condition where the file we check is not the same that gets
         # loaded after the analysis.
-        return pickle.loads(pickled_data.dumps(), *args, **kwargs)
+        return pickle.loads(data, *args, **kwargs)
     else:
         raise UnsafeFileError(file, result.to_dict())
